@@ -96,6 +96,21 @@ pub enum Op {
     Deny { kind: ErrKind },
     Allow,
     Restart { client: usize },
+    /// Several clients load concurrently, each on its own thread and its own path; the seeded
+    /// scheduler of `conc.rs` decides the interleaving at read granularity.
+    Concurrent {
+        threads: Vec<ThreadSpec>,
+        sched_seed: u64,
+        /// The turn moves with probability 1/switch_den at each yield point.
+        switch_den: u64,
+    },
+}
+
+#[derive(Clone, Debug, Serialize, Deserialize, PartialEq, Eq)]
+pub struct ThreadSpec {
+    pub image: usize,
+    pub plan: Plan,
+    pub probe_seed: u64,
 }
 
 impl Op {
@@ -107,6 +122,7 @@ impl Op {
             Op::Deny { .. } => 'D',
             Op::Allow => 'A',
             Op::Restart { .. } => 'X',
+            Op::Concurrent { .. } => 'C',
         }
     }
 }
@@ -155,6 +171,8 @@ pub enum Stratum {
     Transparent,
     /// Everything, swarm-selected.
     Mixed,
+    /// 2-3 clients loading concurrently under a seeded interleaving.
+    Concurrent,
 }
 
 const K_SHORT: u32 = 1;
@@ -271,12 +289,19 @@ fn gen_plan(rng: &mut Rng, info: &PoolInfo, kinds: u32, density: u64, n_pool_cho
 }
 
 pub fn stratum_of(run_index: u64, v0_len: usize, rng: &mut Rng) -> Stratum {
-    if (run_index as usize) <= v0_len {
-        return Stratum::ByteSweep(run_index as usize);
+    // Three of every four run indices sweep the byte offsets of the shipped list (so that the
+    // sweep is complete after 4/3 * (len + 1) runs); the fourth is drawn from the other strata, so
+    // that every block of runs contains all kinds.
+    if run_index % 4 != 3 {
+        let off = 3 * (run_index / 4) + run_index % 4;
+        if (off as usize) <= v0_len {
+            return Stratum::ByteSweep(off as usize);
+        }
     }
     match rng.below(16) {
         0 => Stratum::Quiet,
         1..=3 => Stratum::Transparent,
+        4 => Stratum::Concurrent,
         _ => Stratum::Mixed,
     }
 }
@@ -325,6 +350,14 @@ pub fn generate(seed: u64, run_index: u64, infos: &[PoolInfo]) -> Scenario {
                 }
             }
         }
+        Stratum::Concurrent => {
+            kinds = K_SHORT;
+            for k in [K_EINTR, K_HARD] {
+                if rng.chance(1, 3) {
+                    kinds |= k;
+                }
+            }
+        }
         Stratum::Mixed | Stratum::ByteSweep(_) => {
             for k in [
                 K_SHORT, K_EINTR, K_HARD, K_OPENFAIL, K_REPLACE_MID, K_DENY, K_RESTART, K_REPLACE,
@@ -341,6 +374,7 @@ pub fn generate(seed: u64, run_index: u64, infos: &[PoolInfo]) -> Scenario {
     }
     let density: u64 = match stratum {
         Stratum::Quiet | Stratum::Transparent => 0,
+        Stratum::Concurrent => 2,
         _ => *rng.pick(&[2, 4, 4, 6]),
     };
 
@@ -371,7 +405,39 @@ pub fn generate(seed: u64, run_index: u64, infos: &[PoolInfo]) -> Scenario {
         loads += 1;
     }
 
-    while ops.len() < n_ops {
+    if stratum == Stratum::Concurrent {
+        let n_threads = rng.urange(2, 3);
+        let mut threads = Vec::new();
+        for j in 0..n_threads {
+            // different images, so that mixed-up content is visible
+            let image = if j < imgs.len() {
+                imgs[j]
+            } else {
+                rng.urange(0, infos.len() - 1)
+            };
+            let mut plan = gen_plan(&mut rng, &infos[image], kinds & !K_REPLACE_MID, density, &imgs);
+            plan.replace_at = None;
+            // many yield points: small-to-medium chunks
+            plan.chunks = match rng.below(4) {
+                0 => vec![rng.urange(16, 64)],
+                1 => vec![rng.urange(64, 600)],
+                2 => vec![rng.urange(1, 8), rng.urange(200, 4000)],
+                _ => vec![rng.urange(500, 5000)],
+            };
+            threads.push(ThreadSpec {
+                image,
+                plan,
+                probe_seed: rng.next_u64(),
+            });
+        }
+        ops.push(Op::Concurrent {
+            threads,
+            sched_seed: rng.next_u64(),
+            switch_den: *rng.pick(&[1, 1, 2, 4, 16]),
+        });
+    }
+
+    while ops.len() < n_ops && stratum != Stratum::Concurrent {
         let r = rng.below(100);
         let client = rng.usize_below(n_clients);
         if r < 45 {
@@ -446,6 +512,7 @@ pub fn generate(seed: u64, run_index: u64, infos: &[PoolInfo]) -> Scenario {
             Stratum::Quiet => "quiet".into(),
             Stratum::Transparent => "transparent".into(),
             Stratum::Mixed => "mixed".into(),
+            Stratum::Concurrent => "concurrent".into(),
         },
         n_clients,
         initial: imgs[0],
